@@ -136,9 +136,46 @@ def run(ctx):
                 break
         if len(samples) < 4 and lab in ("toomany_huge", "random", "long", "nonnum") and lab not in [x["kind"] for x in samples]:
             samples.append({"kind": lab, "input": s[:80].decode("latin-1"), "impl": i[:80]})
+    # ---- the same texts where pdsh takes a host expression: -w / -x words, with the prefixes a word may carry ----
+    import realeng
+    real = realeng.Real(ctx, san=False, tag="real15", null_exec=True)
+    nreal, rbad = 0, 0
+    bodies = [b"a[1-3", b"a1-3]", b"a[3-1]", b"a[1-x]", b"a[]", b"a[1-99999]", b"a[0-18446744073709551615]", b"[", b"]", b"a[1-2]b[3-", b"a[[1-2]]",
+              b"a[1,,2]", b"a[1-2-3]", b"a[-1]", b",", b"a[1-3]", b"", b" ", b"a b", b"a[1-2]-[0-1]", b"x" * 1100]
+    prefixes = [b"", b"bob@", b"exec:", b"exec:bob@", b"nosuch:", b"-", b"@", b":", b"bob@@", b"a:b:c@"]
+    cdir15 = os.path.join(vlib.VERIF, "corpus", PROP)
+    extra = []
+    if os.path.isdir(cdir15):
+        for fn in sorted(os.listdir(cdir15)):
+            if fn.startswith("word_") and fn.endswith(".json"):
+                extra.append(vlib.unhex(json.load(open(os.path.join(cdir15, fn)))["word"]))
+    words = extra + [pf + b for pf in prefixes for b in bodies]
+    if not quick:
+        words += [r.choice(prefixes) + gen_random(r)[:200] for _ in range(1500)]
+    for wd in words:
+        if b"\0" in wd:
+            continue
+        for opt in (["-w", wd], ["-w", b"ok1", "-x", wd]):
+            rc, o, e = real.run(["-Q"] + opt, timeout=10)
+            nreal += 1
+            msg = None
+            if rc == -999:
+                msg = "pdsh does not terminate on the word"
+            elif rc < 0 or rc >= 128:
+                msg = "pdsh crashed (status %d) instead of failing cleanly" % rc
+            if msg:
+                rbad += 1; bad += 1
+                ctx.violation("input", case={"args": ["-Q"] + [x.decode("latin-1") if isinstance(x, bytes) else x for x in opt]},
+                              expected="a host list or a clean failure (exit 0/1 with a diagnostic)", observed="status %d %r" % (rc, e[-160:]), engine="args",
+                              detail="%s: %r" % (msg, wd[:120]))
+                if rbad >= 3:
+                    break
+        if rbad >= 3:
+            break
     have_input = any(v["kind"] != "no-failing-input-found" for v in ctx.violations)
     vlib.report_proof_break(ctx, have_input)
     cov = vlib.proof_coverage(ctx, {
+        "real_binary_words": nreal,
         "evaluations": len(cases), "distinct_nontrivial": len(set(c for c, (e, l) in zip(cases, meta) if l != "corpus")),
         "rule": "labelled malformed inputs with an outcome the property states (unbalanced, reversed, non-numeric, too many incl. numbers beyond 2^64), grammar-biased random byte strings, words around the 1023/4095-byte buffers; all run under ASan/UBSan; distinct = distinct input string",
         "samples": samples, "input_distribution": dist, "outcome_kinds": kinds, "corpus_cases": ncorpus, "disagreements": bad})
